@@ -13,6 +13,7 @@ def TextUnit.pchars : TextUnit → Option (List AttrChar)
   | .lit c => some [litChar c]
   | .bs c => some [quoteChar '\\', quotedLit c]
   | .param _ _ => none
+  | .cmd _ _ => none
   | .arith _ => none
 
 def Text.pchars : Text → Option (List AttrChar)
@@ -110,6 +111,7 @@ theorem textUnit_plain (u : TextUnit) (c : Char) (h : u.plain = some c) :
       by simp [removeQuotesAndStrip, skipQuotes, strip, quoteChar, quotedLit]⟩, by simp⟩
   | param p m => simp [TextUnit.plain] at h
   | arith t => simp [TextUnit.plain] at h
+  | cmd b c => simp [TextUnit.plain] at h
 
 theorem text_plain : ∀ (t : Text) (s : List Char), t.plain = some s →
     ∃ cs, t.pchars = some cs ∧ Good cs s
@@ -175,6 +177,7 @@ theorem posixTextUnit_pchars (env : Env) (ws : Bool) (u : TextUnit) (cs : List A
   | bs c => simp only [TextUnit.pchars, Option.some.injEq] at h; subst h; rfl
   | param p m => simp [TextUnit.pchars] at h
   | arith t => simp [TextUnit.pchars] at h
+  | cmd b c => simp [TextUnit.pchars] at h
 
 theorem joinFields_one_one (a b : List AttrChar) : joinFields [a] [b] = [a ++ b] := by
   simp [joinFields]
